@@ -12,6 +12,7 @@ semantic + lowering diagnostics (`module_semantic_diagnostics`, `module_lowering
 `DiagnosticsReporter::check` on a RootDatabase with the corelib); or a diagnostic whose span is not inside
 its file.  Crash detection is the harness's (catch_unwind, watchdog, process supervision), not the model's.
 """
+import hashlib
 import json
 import os
 import re
@@ -48,7 +49,9 @@ def c09_key(p):
         return {"kind": "panic", "stage": p["stage"], "at": site, "message_prefix": re.sub(r"Id\([0-9a-f]+\)", "Id(_)", msg)[:60]}
     if p["kind"] == "diag_span":
         return {"kind": "diag_span", "stage": p["stage"], "what": p["detail"].split(":")[0]}
-    return {"kind": p["kind"], "stage": p["stage"]}
+    # crash / hang: no panic site is available - keyed by the input itself, so that one known crash
+    # never masks another one
+    return {"kind": p["kind"], "stage": p["stage"], "input_sha": hashlib.sha256((p.get("text") or "").encode()).hexdigest()[:16]}
 
 
 def report(chk, problems, mode_of):
